@@ -54,8 +54,8 @@ def run(tier, replay=None):
                 continue
             if client == "get" and pos != "instead":
                 continue          # on the listening stream the bad frame simply precedes a well-formed notification
-            nvar = {"nonjson": 3, "wrongkind": 2, "idtype": 4, "giant": 2, "comment": 4, "fieldtype": 12}.get(bad, 1)
-            variants = range(nvar) if tier == "thorough" else ([rnd.randrange(nvar)] if bad not in ("fieldtype", "comment") else rnd.sample(range(nvar), 4))
+            nvar = {"nonjson": 3, "wrongkind": 2, "idtype": 4, "giant": 2, "comment": 4, "fieldtype": 12, "noevent": 4}.get(bad, 1)
+            variants = range(nvar) if tier == "thorough" else ([rnd.randrange(nvar)] if bad not in ("fieldtype", "comment", "noevent") else rnd.sample(range(nvar), 4))
             if client == "json" and tier == "thorough":
                 variants = range(5)
             for v in variants:
